@@ -95,6 +95,13 @@ func main() {
 		for _, pk := range p.Pkgs {
 			fmt.Println(pk.PkgPath, len(pk.GoFiles))
 		}
+	case "c07dump":
+		p, err := load.Load(load.Options{})
+		if err != nil {
+			fmt.Println("load error:", err)
+			os.Exit(2)
+		}
+		checks.C07Dump(p)
 	case "e1":
 		t0 := time.Now()
 		p, err := load.Load(load.Options{})
